@@ -427,15 +427,19 @@ def check_C15(tier):
     hists = calls_from_dump(r.dumpfile, var='hist')
     depth = max(len(h) for h in hists)
     behaviours = [h for h in hists if len(h) == depth]
-    nsim, dsim = (150, 10) if tier == 'quick' else (1500, 40)
+    nsim, dsim = (150, 10) if tier == 'quick' else (600, 40)
     rs, sims = _sim_behaviours('StoreDyn', 'StoreDyn_gen.cfg', conf, nsim, dsim)
     rep.add_tlc(rs, 'random Writer behaviours (-simulate num=%d depth=%d)' % (nsim, dsim))
     behaviours += [h for h in sims if h]
-    if tier == 'quick' and len(behaviours) > 450:
-        # all behaviours were checked by TLC on the model; the quick tier replays a seeded sample of the exhaustive ones
+    cap = 300 if tier == 'quick' else 6000
+    if len([h for h in behaviours if len(h) == depth]) > cap:
+        # all behaviours were checked by TLC on the model; a seeded sample of the exhaustive ones is replayed
+        # (the thorough family has over a million behaviours of three calls; each replayed step reads the whole alphabet twice
+        #  and once more from a new process)
         rnd = random.Random(SEED)
         ex = [h for h in behaviours if len(h) == depth]
-        behaviours = rnd.sample(ex, 300) + [h for h in behaviours if len(h) != depth]
+        behaviours = rnd.sample(ex, cap) + [h for h in behaviours if len(h) != depth]
+        rep.notes['replayed'] = 'TLC checked every behaviour of the family on the model; %d of the %d exhaustive behaviours (seeded sample) and all simulated ones are replayed on the implementation' % (cap, len(ex))
     if os.environ.get('VERIF_LIMIT'):
         behaviours = behaviours[:int(os.environ['VERIF_LIMIT'])]
     alphabet = sorted({tuple(st['segs']) for h in behaviours for st in h})
